@@ -60,8 +60,10 @@ def build(tier, feats):
     return os.path.join(target, "debug", "allocgrid"), None
 
 
-def transcripts(tier, seed=1):
+def transcripts(tier, seed=1, variants=None):
     key = repo_hash()[:16] + "-" + machinery_hash(["harness/allocgrid", "oracle", "coq/theories", "tools/fam_alloc.py", "tools/common.py"])[:16] + "-%d" % seed
+    if variants is not None:
+        key += "-" + "_".join("+".join(v) or "base" for v in variants)
     cdir = os.path.join(CACHE, "transcripts", "alloc-%s-%s" % (tier, key))
     done = os.path.join(cdir, "result.json")
     if os.path.exists(done):
@@ -71,13 +73,14 @@ def transcripts(tier, seed=1):
     os.makedirs(cdir, exist_ok=True)
     oracle, oerr = build_oracle()
     res = {"tier": tier, "key": key, "cfgs": {}, "oracle_error": oerr, "dir": cdir, "cached": False}
-    variants = [["uninit"]] if tier == "quick" else [["uninit"], ["uninit", "track_caller"]]
+    if variants is None:
+        variants = [["uninit"]] if tier == "quick" else [["uninit"], ["uninit", "track_caller"]]
     for feats in variants:
-        name = "+".join(feats)
-        entry = {"features": ["extern_crate_alloc", "alloc_uninit", "zeroable_maybe_uninit"] + feats[1:]}
+        name = "+".join(feats) or "base"
+        entry = {"features": ["extern_crate_alloc"] + (["alloc_uninit", "zeroable_maybe_uninit"] + feats[1:] if feats[:1] == ["uninit"] else feats)}
         res["cfgs"][name] = entry
         exe, err = build(tier, feats)
-        if exe is None:
+        if exe is None and feats[:1] == ["uninit"]:
             # the uninit features may not build (C20's concern); fall back to the plain allocation feature
             exe, err2 = build(tier, feats[1:])
             entry["features"] = ["extern_crate_alloc"] + feats[1:]
@@ -85,6 +88,9 @@ def transcripts(tier, seed=1):
             if exe is None:
                 entry["build_error"] = err2
                 continue
+        elif exe is None:
+            entry["build_error"] = err
+            continue
         tpath = os.path.join(cdir, "alloc-%s.txt" % name)
         t0 = time.time()
         with open(tpath, "w") as f:
